@@ -1,5 +1,6 @@
 (* Proofs about the generator-process model Gen/GenState.v (C10). *)
 From Verif Require Import GenState.
+From Verif Require Lookup LookupThm.
 From Coq Require Import Lia.
 Open Scope N_scope.
 
@@ -119,7 +120,16 @@ Qed.
 (* ================= rendering ================= *)
 Section RunThm.
   Variable U : universe.
-  Variable render : N -> tyobj -> prog.
+  Variable bases : N -> list N.
+  Variable cname : N -> str.
+  Variable fuel : nat.
+  Variable rank : N -> nat.
+  (* the pydsdl class graph is a forest (single inheritance below object) of depth < fuel; C16 proves these hypotheses of
+     the regenerated class table (C16_real_forest_hypotheses), the C10 check tests them on the table it hands to the model *)
+  Hypothesis Hsingle : forall c, (length (bases c) <= 1)%nat.
+  Hypothesis Hrank : forall c p, In p (bases c) -> (rank p < rank c)%nat.
+  Hypothesis Hfuel : forall c, (rank c < fuel)%nat.
+  Variable render : N -> option str -> tyobj -> prog.
   Variable cfun : ckey -> str.
   Variable maxsize : option nat.
 
@@ -147,33 +157,61 @@ Section RunThm.
       destruct (lru_call cfun maxsize c (self, q)) as [c1 v]. cbn [fst snd] in *. subst v. apply IH, Hc'.
   Qed.
 
-  Variable lel_shared : bool.
+  (* ---- template selection: the template is the one of the nearest class of the inheritance chain that has one in the
+     listing -- a function of (class, listing) only, whatever the loader memo has seen before (C16's lemmas) ---- *)
+  Definition spec_select (ts : list (str * str)) (cl : N) : option str :=
+    Lookup.nearest (Lookup.tmap cname ts) (LookupThm.chain bases rank cl).
 
-  Notation gen_file := (gen_file render cfun maxsize true lel_shared).
-  Notation alone := (alone render cfun maxsize true lel_shared).
+  Definition memo_ok (ts : list (str * str)) (memo : Lookup.cache) : Prop := LookupThm.consistent (Lookup.tmap cname ts) memo.
 
-  Definition pure_chunks (cf : N) (o : tyobj) : list str := snd (prog_out cf (render cf o) UniqueNameGenerator_init).
-
-  (* with reset() in place the file and the processor state after it are a function of (configuration, type object,
-     processor state before) -- not of the unique-name state, not of the memo table *)
-  Lemma gen_file_spec cf u c ps o :
-    cache_ok cfun c ->
-    cache_ok cfun (snd (fst (fst (gen_file cf u c ps o)))) /\
-    (snd (fst (gen_file cf u c ps o)), snd (gen_file cf u c ps o)) =
-      write_file (if lel_shared then ps else map pp_fresh ps) (pure_chunks cf o).
+  Lemma select_transparent ts memo cl :
+    memo_ok ts memo ->
+    snd (select bases cname fuel ts memo cl) = spec_select ts cl /\ memo_ok ts (fst (select bases cname fuel ts memo cl)).
   Proof.
-    intros Hc. unfold GenState.gen_file, pure_chunks.
-    destruct (run_prog_transparent cf (render cf o) UniqueNameGenerator_init c Hc) as [H1 H2].
-    destruct (run_prog cfun maxsize cf (render cf o) UniqueNameGenerator_init c) as [[u1 c1] chunks].
-    cbn [fst snd] in *. rewrite <- H1. cbn [snd].
-    destruct (write_file (if lel_shared then ps else map pp_fresh ps) chunks) as [ps1 text]. cbn [fst snd].
-    split; [exact H2|reflexivity].
+    intros Hm. unfold select.
+    rewrite (LookupThm.bfs_scan bases rank Hsingle Hrank (Lookup.tmap cname ts) fuel cl [] memo (Hfuel cl))
+      by (intros d []).
+    destruct (LookupThm.scan (Lookup.tmap cname ts) memo (LookupThm.chain bases rank cl)) as [m' r] eqn:E.
+    destruct (LookupThm.scan_consistent _ _ _ _ _ Hm E) as [H1 H2]. cbn [fst snd]. split; assumption.
   Qed.
 
-  Lemma alone_spec cf pps0 o :
-    alone cf pps0 o = snd (write_file (if lel_shared then pps0 else map pp_fresh pps0) (pure_chunks cf o)).
+  Variable lel_shared : bool.
+
+  Notation gen_file := (gen_file bases cname fuel render cfun maxsize true lel_shared).
+  Notation alone := (alone bases cname fuel render cfun maxsize true lel_shared).
+
+  Definition pure_chunks (cf : N) (tmpl : option str) (o : tyobj) : list str :=
+    snd (prog_out cf (render cf tmpl o) UniqueNameGenerator_init).
+
+  (* what a file must be: selected template and text as a function of (configuration, listing, type object, processors) *)
+  Definition file_spec (cf : N) (ts : list (str * str)) (ps : list pp) (o : tyobj) : list pp * (option str * str) :=
+    let tmpl := spec_select ts (obj_cls o) in
+    let '(ps1, text) := write_file (if lel_shared then ps else map pp_fresh ps) (pure_chunks cf tmpl o) in
+    (ps1, (tmpl, text)).
+
+  (* with reset() in place the file, the template chosen for it and the processor state after it are a function of
+     (configuration, template listing, type object, processor state before) -- not of the unique-name state, not of the
+     memo tables, not of the loader memo *)
+  Lemma gen_file_spec cf ts memo u c ps o :
+    cache_ok cfun c -> memo_ok ts memo ->
+    let r := gen_file cf ts memo u c ps o in
+    memo_ok ts (fst (fst (fst (fst r)))) /\ cache_ok cfun (snd (fst (fst r))) /\
+    (snd (fst r), snd r) = file_spec cf ts ps o.
   Proof.
-    unfold GenState.alone. destruct (gen_file_spec cf UniqueNameGenerator_init [] pps0 o (Forall_nil _)) as [_ H].
+    intros Hc Hm. unfold GenState.gen_file, file_spec, pure_chunks.
+    destruct (select_transparent ts memo (obj_cls o) Hm) as [Hs Hm1].
+    destruct (select bases cname fuel ts memo (obj_cls o)) as [memo1 tmpl]. cbn [fst snd] in Hs, Hm1. subst tmpl.
+    destruct (run_prog_transparent cf (render cf (spec_select ts (obj_cls o)) o) UniqueNameGenerator_init c Hc) as [H1 H2].
+    destruct (run_prog cfun maxsize cf (render cf (spec_select ts (obj_cls o)) o) UniqueNameGenerator_init c) as [[u1 c1] chunks].
+    cbn [fst snd] in *. rewrite <- H1. cbn [snd].
+    destruct (write_file (if lel_shared then ps else map pp_fresh ps) chunks) as [ps1 text]. cbn [fst snd].
+    split; [exact Hm1|]. split; [exact H2|reflexivity].
+  Qed.
+
+  Lemma alone_spec cf ts pps0 o : alone cf ts pps0 o = snd (file_spec cf ts pps0 o).
+  Proof.
+    unfold GenState.alone.
+    destruct (gen_file_spec cf ts [] UniqueNameGenerator_init [] pps0 o (Forall_nil _) (LookupThm.consistent_nil _)) as (_ & _ & H).
     rewrite <- H. reflexivity.
   Qed.
 
@@ -194,60 +232,86 @@ Section RunThm.
   Lemma pps_fresh_idem ps : map pp_fresh (map pp_fresh ps) = map pp_fresh ps.
   Proof. rewrite map_map. apply map_ext, pp_fresh_idem. Qed.
 
+  Lemma file_spec_fresh cf ts ps o :
+    (lel_shared = false \/ pps_clean ps = true) -> snd (file_spec cf ts (map pp_fresh ps) o) = snd (file_spec cf ts ps o).
+  Proof.
+    intros Hside. unfold file_spec. destruct lel_shared.
+    - destruct Hside as [Hf|Hcl]; [discriminate|]. rewrite (pps_fresh_clean ps Hcl). reflexivity.
+    - rewrite pps_fresh_idem. reflexivity.
+  Qed.
+
   (* what the statements say about one written file *)
   Definition entry_ok (e : entry) : Prop :=
     (exists ins, resolve_in U ins (e_key e) = Some (e_obj e)) /\
-    ((lel_shared = false \/ e_clean e = true) -> e_text e = alone (e_cfg e) (e_pps0 e) (e_obj e)).
+    e_tmpl e = spec_select (e_tset e) (obj_cls (e_obj e)) /\
+    ((lel_shared = false \/ e_clean e = true) -> (e_tmpl e, e_text e) = alone (e_cfg e) (e_tset e) (e_pps0 e) (e_obj e)).
 
-  Notation run_types := (run_types U render cfun maxsize true lel_shared).
+  Notation run_types := (run_types U bases cname fuel render cfun maxsize true lel_shared).
 
-  Lemma run_types_ok cf ins order : forall u c ps,
-    cache_ok cfun c ->
-    cache_ok cfun (snd (fst (fst (run_types cf ins u c ps order)))) /\
-    Forall entry_ok (snd (run_types cf ins u c ps order)).
+  Lemma run_types_ok cf ts ins order : forall memo u c ps,
+    cache_ok cfun c -> memo_ok ts memo ->
+    let r := run_types cf ts ins memo u c ps order in
+    memo_ok ts (fst (fst (fst (fst r)))) /\ cache_ok cfun (snd (fst (fst r))) /\ Forall entry_ok (snd r).
   Proof.
-    induction order as [|k order IH]; intros u c ps Hc; cbn [GenState.run_types].
-    - split; [exact Hc|constructor].
-    - destruct (resolve_in U ins k) as [o|] eqn:Hr; [|apply IH, Hc].
-      destruct (gen_file_spec cf u c ps o Hc) as [Hc1 Hw].
-      destruct (gen_file cf u c ps o) as [[[u1 c1] ps1] text]. cbn [fst snd] in *.
-      destruct (IH u1 c1 ps1 Hc1) as [Hc2 Hes].
-      destruct (run_types cf ins u1 c1 ps1 order) as [[[u2 c2] ps2] es]. cbn [fst snd] in *.
-      split; [exact Hc2|]. constructor; [|exact Hes].
-      split; cbn [e_key e_obj e_clean e_text e_cfg e_pps0].
+    induction order as [|k order IH]; intros memo u c ps Hc Hm; cbn [GenState.run_types].
+    - cbn [fst snd]. repeat split; [exact Hm|exact Hc|constructor].
+    - destruct (resolve_in U ins k) as [o|] eqn:Hr; [|apply IH; assumption].
+      pose proof (gen_file_spec cf ts memo u c ps o Hc Hm) as Hg. cbv zeta in Hg.
+      destruct (gen_file cf ts memo u c ps o) as [[[[m1 u1] c1] ps1] res]. cbn [fst snd] in Hg.
+      destruct Hg as (Hm1 & Hc1 & Hw).
+      pose proof (IH m1 u1 c1 ps1 Hc1 Hm1) as Hi. cbv zeta in Hi.
+      destruct (run_types cf ts ins m1 u1 c1 ps1 order) as [[[[m2 u2] c2] ps2] es]. cbn [fst snd] in *.
+      destruct Hi as (Hm2 & Hc2 & Hes).
+      split; [exact Hm2|]. split; [exact Hc2|]. constructor; [|exact Hes].
+      assert (Hres : res = snd (file_spec cf ts ps o)) by (rewrite <- Hw; reflexivity).
+      split; [|split]; cbn [e_key e_obj e_clean e_text e_cfg e_pps0 e_tset e_tmpl].
       + exists ins. exact Hr.
-      + intros Hside. rewrite alone_spec. destruct lel_shared.
-        * destruct Hside as [Hf|Hcl]; [discriminate|]. rewrite (pps_fresh_clean ps Hcl). rewrite <- Hw. reflexivity.
-        * rewrite pps_fresh_idem, <- Hw. reflexivity.
+      + rewrite Hres. unfold file_spec.
+        destruct (write_file (if lel_shared then ps else map pp_fresh ps) (pure_chunks cf (spec_select ts (obj_cls o)) o)).
+        reflexivity.
+      + intros Hside. rewrite alone_spec, (file_spec_fresh cf ts ps o Hside), <- Hres. destruct res; reflexivity.
   Qed.
 
-  Notation op_step := (op_step U render cfun maxsize true lel_shared).
-  Notation exec := (exec U render cfun maxsize true lel_shared).
+  Notation op_step := (op_step U bases cname fuel render cfun maxsize true lel_shared).
+  Notation exec := (exec U bases cname fuel render cfun maxsize true lel_shared).
 
-  Lemma op_step_ok s o :
-    cache_ok cfun (p_cache s) ->
-    cache_ok cfun (p_cache (fst (op_step s o))) /\ Forall entry_ok (snd (op_step s o)).
+  (* invariant of the process state: the function memo and every generator's loader memo only hold true entries *)
+  Definition pstate_ok (s : pstate) : Prop :=
+    cache_ok cfun (p_cache s) /\ Forall (fun g => memo_ok (go_tset g) (go_memo g)) (p_gens s).
+
+  Lemma set_nth_Forall {A} (P : A -> Prop) n x l : Forall P l -> P x -> Forall P (set_nth n x l).
   Proof.
-    intros Hc. destruct o as [cf pps ins|gid order|]; cbn [GenState.op_step fst snd p_cache].
-    - split; [exact Hc|constructor].
-    - destruct (nth_error (p_gens s) gid) as [g|]; [|split; [exact Hc|constructor]].
-      destruct (run_types_ok (go_cfg g) (go_inputs g) order (p_uniq s) (p_cache s) (go_pps g) Hc) as [H1 H2].
-      destruct (run_types (go_cfg g) (go_inputs g) (p_uniq s) (p_cache s) (go_pps g) order) as [[[u1 c1] ps1] es].
-      cbn [fst snd p_cache] in *. split; assumption.
-    - split; constructor.
+    revert n; induction l as [|y l IH]; intros n Hl Hx; destruct n; cbn [set_nth]; try constructor;
+      inversion Hl; subst; auto.
   Qed.
 
-  Lemma exec_ok h : forall s,
-    cache_ok cfun (p_cache s) -> Forall entry_ok (snd (exec s h)).
+  Lemma op_step_ok s o : pstate_ok s -> pstate_ok (fst (op_step s o)) /\ Forall entry_ok (snd (op_step s o)).
   Proof.
-    induction h as [|o h IH]; intros s Hc; cbn [GenState.exec]; [constructor|].
-    destruct (op_step_ok s o Hc) as [H1 H2]. destruct (op_step s o) as [s1 es1]. cbn [fst snd] in *.
+    intros [Hc Hg]. destruct o as [cf ts pps ins|gid order|]; cbn [GenState.op_step fst snd].
+    - split; [|constructor]. split; cbn [p_cache p_gens]; [exact Hc|].
+      apply Forall_app. split; [exact Hg|]. constructor; [|constructor]. apply LookupThm.consistent_nil.
+    - destruct (nth_error (p_gens s) gid) as [g|] eqn:En; [|split; [split; assumption|constructor]].
+      assert (Hmg : memo_ok (go_tset g) (go_memo g)).
+      { rewrite Forall_forall in Hg. apply Hg. eapply nth_error_In. exact En. }
+      pose proof (run_types_ok (go_cfg g) (go_tset g) (go_inputs g) order (go_memo g) (p_uniq s) (p_cache s) (go_pps g) Hc Hmg) as Hr.
+      cbv zeta in Hr.
+      destruct (run_types (go_cfg g) (go_tset g) (go_inputs g) (go_memo g) (p_uniq s) (p_cache s) (go_pps g) order)
+        as [[[[m1 u1] c1] ps1] es]. cbn [fst snd] in *. destruct Hr as (H1 & H2 & H3).
+      split; [|exact H3]. split; cbn [p_cache p_gens]; [exact H2|].
+      apply set_nth_Forall; [exact Hg|]. cbn [go_tset go_memo]. exact H1.
+    - split; [|constructor]. split; cbn [p_cache p_gens]; [constructor|exact Hg].
+  Qed.
+
+  Lemma exec_ok h : forall s, pstate_ok s -> Forall entry_ok (snd (exec s h)).
+  Proof.
+    induction h as [|o h IH]; intros s Hs; cbn [GenState.exec]; [constructor|].
+    destruct (op_step_ok s o Hs) as [H1 H2]. destruct (op_step s o) as [s1 es1]. cbn [fst snd] in *.
     specialize (IH s1 H1). destruct (exec s1 h) as [s2 es2]. cbn [snd] in *.
     apply Forall_app. split; assumption.
   Qed.
 
-  Theorem log_entries_ok h : Forall entry_ok (log U render cfun maxsize true lel_shared h).
-  Proof. unfold log. apply exec_ok. constructor. Qed.
+  Theorem log_entries_ok h : Forall entry_ok (log U bases cname fuel render cfun maxsize true lel_shared h).
+  Proof. unfold log. apply exec_ok. split; constructor. Qed.
 End RunThm.
 
 (* ================= the dependency closure ================= *)
@@ -281,47 +345,88 @@ Qed.
 (* ================= per-type independence ================= *)
 Section Indep.
   Variable U : universe.
-  Variable render : N -> tyobj -> prog.
+  Variable bases : N -> list N.
+  Variable cname : N -> str.
+  Variable fuel : nat.
+  Variable rank : N -> nat.
+  Hypothesis Hsingle : forall c, (length (bases c) <= 1)%nat.
+  Hypothesis Hrank : forall c p, In p (bases c) -> (rank p < rank c)%nat.
+  Hypothesis Hfuel : forall c, (rank c < fuel)%nat.
+  Variable render : N -> option str -> tyobj -> prog.
   Variable cfun : ckey -> str.
 
   Theorem file_indep_lemma (lel_shared : bool) (m1 m2 : option nat) (h1 h2 : list op) (e1 e2 : entry) :
-    In e1 (log U render cfun m1 true lel_shared h1) -> In e2 (log U render cfun m2 true lel_shared h2) ->
-    e_cfg e1 = e_cfg e2 -> e_pps0 e1 = e_pps0 e2 -> e_key e1 = e_key e2 ->
+    In e1 (log U bases cname fuel render cfun m1 true lel_shared h1) ->
+    In e2 (log U bases cname fuel render cfun m2 true lel_shared h2) ->
+    e_cfg e1 = e_cfg e2 -> e_tset e1 = e_tset e2 -> e_pps0 e1 = e_pps0 e2 -> e_key e1 = e_key e2 ->
     (lel_shared = false \/ (e_clean e1 = true /\ e_clean e2 = true)) ->
-    e_text e1 = e_text e2.
+    e_tmpl e1 = e_tmpl e2 /\ e_text e1 = e_text e2.
   Proof.
-    intros H1 H2 Hc Hp Hk Hside.
-    pose proof (log_entries_ok U render cfun m1 lel_shared h1) as F1.
-    pose proof (log_entries_ok U render cfun m2 lel_shared h2) as F2.
-    rewrite Forall_forall in F1, F2. destruct (F1 e1 H1) as [[i1 R1] A1]. destruct (F2 e2 H2) as [[i2 R2] A2].
+    intros H1 H2 Hc Ht Hp Hk Hside.
+    pose proof (log_entries_ok U bases cname fuel rank Hsingle Hrank Hfuel render cfun m1 lel_shared h1) as F1.
+    pose proof (log_entries_ok U bases cname fuel rank Hsingle Hrank Hfuel render cfun m2 lel_shared h2) as F2.
+    rewrite Forall_forall in F1, F2. destruct (F1 e1 H1) as ([i1 R1] & _ & A1). destruct (F2 e2 H2) as ([i2 R2] & _ & A2).
     rewrite Hk in R1. pose proof (resolve_indep_lemma U _ _ _ _ _ _ _ R1 R2) as Ho.
-    rewrite A1, A2 by (destruct Hside as [?|[? ?]]; auto).
-    rewrite !alone_spec, Hc, Hp, Ho. reflexivity.
+    assert (E : (e_tmpl e1, e_text e1) = (e_tmpl e2, e_text e2)).
+    { rewrite A1, A2 by (destruct Hside as [?|[? ?]]; auto).
+      rewrite !(alone_spec bases cname fuel rank Hsingle Hrank Hfuel), Hc, Ht, Hp, Ho. reflexivity. }
+    injection E as E1 E2. split; assumption.
+  Qed.
+
+  (* the template chosen for a file is a function of (class of the type, template listing) in every history *)
+  Theorem template_selection_lemma (lel_shared : bool) (m : option nat) (h : list op) (e : entry) :
+    In e (log U bases cname fuel render cfun m true lel_shared h) ->
+    e_tmpl e = spec_select bases cname rank (e_tset e) (obj_cls (e_obj e)).
+  Proof.
+    intros H.
+    pose proof (log_entries_ok U bases cname fuel rank Hsingle Hrank Hfuel render cfun m lel_shared h) as F.
+    rewrite Forall_forall in F. exact (proj1 (proj2 (F e H))).
   Qed.
 End Indep.
 
-(* ================= the witness of F-LEL-LEAK ================= *)
-Definition w_U : universe := [([65], {| d_body := []; d_deps := [] |}); ([66], {| d_body := []; d_deps := [] |})].
+(* ================= witnesses ================= *)
+(* class forest of the witnesses: 0 = CompositeType, 1 = StructureType : CompositeType, 2 = UnionType : CompositeType *)
+Definition w_ct : ctable := [(0, ([67], [])); (1, ([83], [0])); (2, ([85], [0]))].
+Definition w_rank (c : N) : nat := if c =? 0 then 0%nat else 1%nat.
+Definition w_ts : list (str * str) := [([83], [83; 46; 106; 50])].      (* S -> "S.j2" *)
+Definition w_U : universe :=
+  [([65], {| d_cls := 1; d_body := []; d_deps := [] |}); ([66], {| d_cls := 1; d_body := []; d_deps := [] |})].
 Definition w_tab : list (ckey * list item) :=
   [((1, [65]), [IText [97; 10; 10]]); ((1, [66]), [IText [10; 98]])].
 Definition w_pps : list pp := [PLimit (LimitEmptyLines_init 1)].
-Definition w_hist_whole : list op := [ONew 1 w_pps [[65]; [66]]; ORun 0 [[65]; [66]]].
-Definition w_hist_subset : list op := [ONew 1 w_pps [[66]]; ORun 0 [[66]]].
+Definition w_hist_whole : list op := [ONew 1 w_ts w_pps [[65]; [66]]; ORun 0 [[65]; [66]]].
+Definition w_hist_subset : list op := [ONew 1 w_ts w_pps [[66]]; ORun 0 [[66]]].
+
+Lemma w_forest_ok :
+  (forall c, (length (ct_bases w_ct c) <= 1)%nat) /\
+  (forall c p, In p (ct_bases w_ct c) -> (w_rank p < w_rank c)%nat) /\ (forall c, (w_rank c < 4)%nat).
+Proof.
+  split; [|split]; intros c.
+  - unfold ct_bases, w_ct. cbn [ct_get]. destruct (0 =? c); [cbn; lia|]. destruct (1 =? c); [cbn; lia|].
+    destruct (2 =? c); cbn; lia.
+  - intros p. unfold ct_bases, w_ct, w_rank. cbn [ct_get].
+    destruct (N.eqb_spec 0 c) as [<-|]; [intros []|]. destruct (N.eqb_spec 1 c) as [<-|].
+    { intros [<-|[]]. cbn. lia. }
+    destruct (N.eqb_spec 2 c) as [<-|]; [|intros []]. intros [<-|[]]. cbn. lia.
+  - unfold w_rank. destruct (c =? 0); lia.
+Qed.
 
 Lemma lel_leak_witness :
-  map e_text (exec_table w_U w_tab None true true w_hist_whole) = [[97; 10; 10]; [98]] /\
-  map e_text (exec_table w_U w_tab None true true w_hist_subset) = [[10; 98]].
+  map e_text (exec_table w_ct w_U false w_tab None true true w_hist_whole) = [[97; 10; 10]; [98]] /\
+  map e_text (exec_table w_ct w_U false w_tab None true true w_hist_subset) = [[10; 98]].
 Proof. vm_compute. split; reflexivity. Qed.
 
 (* the unrestricted statement is false of the model of the code as it is *)
 Theorem lel_leak_refuted_lemma :
-  exists (U : universe) (render : N -> tyobj -> prog) (cfun : ckey -> str) (h1 h2 : list op) (e1 e2 : entry),
-    In e1 (log U render cfun None true true h1) /\ In e2 (log U render cfun None true true h2) /\
-    e_cfg e1 = e_cfg e2 /\ e_pps0 e1 = e_pps0 e2 /\ e_key e1 = e_key e2 /\ e_text e1 <> e_text e2.
+  exists (U : universe) (render : N -> option str -> tyobj -> prog) (cfun : ckey -> str) (h1 h2 : list op) (e1 e2 : entry),
+    In e1 (log U (ct_bases w_ct) (ct_name w_ct) 4 render cfun None true true h1) /\
+    In e2 (log U (ct_bases w_ct) (ct_name w_ct) 4 render cfun None true true h2) /\
+    e_cfg e1 = e_cfg e2 /\ e_tset e1 = e_tset e2 /\ e_pps0 e1 = e_pps0 e2 /\ e_key e1 = e_key e2 /\ e_text e1 <> e_text e2.
 Proof.
-  exists w_U, (table_render w_tab), table_cfun, w_hist_whole, w_hist_subset.
-  pose (d := {| e_cfg := 0; e_pps0 := []; e_key := []; e_obj := TyObj [] [] []; e_clean := true; e_text := [] |}).
-  exists (nth 1 (log w_U (table_render w_tab) table_cfun None true true w_hist_whole) d).
-  exists (nth 0 (log w_U (table_render w_tab) table_cfun None true true w_hist_subset) d).
+  exists w_U, (table_render false w_tab), table_cfun, w_hist_whole, w_hist_subset.
+  pose (d := {| e_cfg := 0; e_tset := []; e_pps0 := []; e_key := []; e_obj := TyObj [] 0 [] []; e_tmpl := None;
+                e_clean := true; e_text := [] |}).
+  exists (nth 1 (log w_U (ct_bases w_ct) (ct_name w_ct) 4 (table_render false w_tab) table_cfun None true true w_hist_whole) d).
+  exists (nth 0 (log w_U (ct_bases w_ct) (ct_name w_ct) 4 (table_render false w_tab) table_cfun None true true w_hist_subset) d).
   vm_compute. repeat split; try (right; left; reflexivity); try (left; reflexivity). discriminate.
 Qed.
